@@ -67,6 +67,7 @@ class Run(object):
     self.harness_errors = []   # recorded in evidence; fatal only in bulk
     self.fatal = []            # systemic harness failures -> exit 3
     self.queries = 0
+    self.inconclusive = []     # names of obligations the solver did not decide within the budget
 
   # -- accounting ------------------------------------------------------------
   def count(self, res):
@@ -76,6 +77,8 @@ class Run(object):
     self.queries += 1
     if v == 'error':
       self.harness_errors.append('%s: %s' % (res.get('name'), str(res.get('detail'))[:600]))
+    if v == 'inconclusive':
+      self.inconclusive.append('%s (%s)' % (res.get('name'), str(res.get('detail'))[:60].replace('\n', ' ')))
 
   def sample(self, obj, limit=6):
     if len(self.samples) < limit:
@@ -133,6 +136,7 @@ class Run(object):
     cov['discharged'] = self.counts['confirmed']
     cov['verdicts'] = dict(self.counts)
     cov['solver_queries'] = self.queries
+    cov['inconclusive_obligations'] = self.inconclusive[:200]
     cov['solver_wall_s'] = round(self.solver_s, 2)
     cov['functions_encoded'] = file_sha(self.encoded_files)
     cov['known_findings_observed'] = sorted(self.known_seen)
